@@ -294,6 +294,18 @@ impl IcmpForwarder {
     }
 }
 
+#[cfg(feature = "verif_hooks")]
+impl IcmpForwarder {
+    /// (reply waiters, deadline entries)
+    pub(crate) fn verif_table_sizes(&self) -> (usize, usize) {
+        let l = self.shared.listeners.lock().unwrap();
+        (
+            l.reply_waiters.len(),
+            l.deadlines.values().map(|x| x.len()).sum(),
+        )
+    }
+}
+
 #[async_trait]
 impl datagram_pipe::Source for IcmpSource {
     type Output = forwarder::IcmpDatagram;
